@@ -25,7 +25,7 @@ CM = "/opt/veriftools/tla/CommunityModules-deps.jar"
 
 
 def _java(heap="1g", gc="Serial", dfs=False):
-    cmd = ["java", f"-XX:+Use{gc}GC", f"-Xmx{heap}", "-XX:TieredStopAtLevel=1"]
+    cmd = ["java", f"-XX:+Use{gc}GC", f"-Xmx{heap}", "-Xss64m", "-XX:TieredStopAtLevel=1"]
     if gc == "Parallel":
         cmd = ["java", "-XX:+UseParallelGC", f"-Xmx{heap}"]
     if dfs:
